@@ -46,7 +46,7 @@ claim('C12',
       "mpq_neg, mpq_abs, mpq_set, mpq_set_z, mpq_set_ui/si, mpq_set_num/den, mpq_get_num/den, mpq_swap: parts copied limb for limb, "
       "denominator positive, both parts well-formed in distinct blocks - hence canonical form is preserved.",
       TB + "mpq_mul/div/add/sub/canonicalize are GLUE proofs on value tokens over ASSUMED gcd/divexact/mul/add contracts (the result is the reduced "
-      "fraction expressed through those uninterpreted functions, denominator positive, every aliasing). mpq_mul_2exp / mpq_div_2exp (mord_2exp) ARE proved, in sixteen path partitions (function x in place or not x whole limbs stripped or not x copy or bit shift), for every operand, every count n <= 2^35: with s = min (n, trailing zero bits of the divided part R) stated through the ghost index of R's lowest non-zero limb, limb gk of the result is limb gk of R >> s, its size is |R| - s/64 or one less with a non-zero top limb, sign kept, and the other part is handed to mpz_mul_2exp (or mpz_set, or left alone in place) with exactly n - s - over ASSUMED stub models of mpz_mul_2exp / mpz_set (well-formed result of the right sign and size, arbitrary limbs: the VALUE of mpz_mul_2exp is not decided). The bounded unit mpq_2exp_enum (complete enumeration of canonical fractions over 431 small operands x 19 counts x in place or not) exhibited defect bc7e1ad - overlapping copy in the wrong direction in place - which is repaired; the proof partition mpq_mul_2exp_ds_zp_copy refutes the unrepaired text. NOT covered: mpq_set_d/set_f, "
+      "fraction expressed through those uninterpreted functions, denominator positive, every aliasing). mpq_mul_2exp / mpq_div_2exp (mord_2exp) ARE proved, in sixteen path partitions (function x in place or not x whole limbs stripped or not x copy or bit shift), for every operand, every count n <= 2^35: with s = min (n, trailing zero bits of the divided part R) stated through the ghost index of R's lowest non-zero limb, limb gk of the result is limb gk of R >> s, its size is |R| - s/64 or one less with a non-zero top limb, sign kept, and the other part is handed to mpz_mul_2exp (or mpz_set, or left alone in place) with exactly n - s - over ASSUMED stub models of mpz_mul_2exp / mpz_set (well-formed result of the right sign and size, arbitrary limbs: the VALUE of mpz_mul_2exp is not decided). The bounded unit mpq_2exp_enum (complete enumeration of canonical fractions over 431 small operands x 19 counts x in place or not) exhibited defect bc7e1ad - overlapping copy in the wrong direction in place - which is repaired. NOT covered: mpq_set_d/set_f, "
       "mpq_cmp*. mpq_equal IS proved (1 exactly when both parts agree in size and limb for limb). _mpz_realloc is used by contract (proved in unit mpz_realloc_int against the allocator model).")
 claim('C04',
       "For every function under contract: the representation invariant (allocation >= 1, |size| <= allocation, block of exactly ALLOC limbs, no "
